@@ -22,7 +22,8 @@ CONSTANTS Defects, Tier, Export
 Thorough == Tier = "thorough"
 
 Schemes == {"http", "HTTP", "https"}
-Hosts   == {"example.com", "EXAMPLE.com", "example.org", "[::1]", "[::1:8080]", "127.0.0.1"}
+\* ("example.com." - the absolute form of the name - is another host as far as RFC 3986 equivalence goes)
+Hosts   == {"example.com", "EXAMPLE.com", "example.com.", "example.org", "[::1]", "[::1:8080]", "127.0.0.1"}
 Ports   == {"", ":", ":80", ":443", ":8080"}
 \* (a.b / a%2Eb: "." is unreserved; a%3Fq=a: an escaped "?" stays part of the path; %2541 / a%252Fb: an escaped "%")
 Segs    == {"a", "A", "%61", "~", "%7E", "%7e", "a%2Fb", "a%2fb", "%E9", "%e9", "RAWE9", "%C3%A9", "+", "%2B", "%20", "b",
